@@ -69,7 +69,7 @@ func c14StressRound(t *testing.T, rec *kit.Rec, round int) {
 	ctx, cancel := context.WithTimeout(context.Background(), 10*time.Minute)
 	defer cancel()
 	be := kit.NewVBackend(5, true)
-	be.SetYield(40, rec.RNG("yield", round))
+	be.SetYield(8, rec.RNG("yield", round))
 	{
 		repo, err := repository.New(be, repository.Options{})
 		if err == nil {
@@ -87,13 +87,20 @@ func c14StressRound(t *testing.T, rec *kit.Rec, round int) {
 	defer os.RemoveAll(base)
 
 	const writers, readers = 3, 4
-	backupsPerWriter := rec.Env.Pick(4, 8)
+	backupsPerWriter := rec.Env.Pick(3, 6)
 	var vmu sync.Mutex
 	versions := map[string]c14Version{} // "w<writer>/v<version>" -> content
 	var writersDone atomic.Int32
 	var wg sync.WaitGroup
 	var snapshotsWritten, readerIterations, snapshotsRead, filesRead atomic.Int64
+	var stalled atomic.Bool
 	fail := func(key, msg string) {
+		if ctx.Err() != nil {
+			// the overall watchdog expired (overloaded machine): nothing can be concluded from
+			// operations that failed with the cancelled context
+			stalled.Store(true)
+			return
+		}
 		rec.Violation(key, msg, map[string]any{"round": round})
 	}
 
@@ -117,8 +124,8 @@ func c14StressRound(t *testing.T, rec *kit.Rec, round int) {
 						name = "sub/" + name
 					}
 					size := wrng.Range(1, 40000)
-					if wrng.Chance(1, 6) {
-						size = wrng.Range(600000, 1500000)
+					if wrng.Chance(1, 8) {
+						size = wrng.Range(520000, 900000) // multi-chunk
 					}
 					_ = os.WriteFile(filepath.Join(dir, name), wrng.Bytes(size), 0o644)
 				}
@@ -162,6 +169,7 @@ func c14StressRound(t *testing.T, rec *kit.Rec, round int) {
 		wg.Add(1)
 		go func() {
 			defer wg.Done()
+			verified := map[restic.ID]bool{} // snapshots this reader has already read completely
 			for iter := 0; ; iter++ {
 				last := writersDone.Load() == writers // one more full pass after all writers finished
 				repo, err := c14OpenRepo(ctx, be, 20+ri, password)
@@ -189,6 +197,10 @@ func c14StressRound(t *testing.T, rec *kit.Rec, round int) {
 				}
 				// 3. every listed snapshot must be completely readable
 				for _, sn := range sns {
+					if verified[*sn.ID()] {
+						continue // what matters is the first time a snapshot is visible
+					}
+					verified[*sn.ID()] = true
 					key := sn.Hostname + "/" + strings.Join(sn.Tags, ",")
 					vmu.Lock()
 					want := versions[key]
@@ -245,9 +257,12 @@ func c14StressRound(t *testing.T, rec *kit.Rec, round int) {
 	select {
 	case <-done:
 	case <-time.After(12 * time.Minute):
-		rec.Inconclusive("round %d: stress did not finish in time", round)
+		stalled.Store(true)
 		cancel()
 		<-done
+	}
+	if stalled.Load() {
+		rec.Inconclusive("round %d: stress did not finish within its watchdog (overloaded machine?)", round)
 	}
 	for _, v := range be.MonitorViolations() {
 		fail("backend-monitor", v)
